@@ -197,6 +197,18 @@ Theorem C03_child : forall T h q (b : bool) i s, 1 <= T < 2 ^ 31 -> Height T = Z
 Proof. exact PathToIndexLoose_child. Qed.
 Print Assumptions C03_child.
 
+(** the parent-and-child operation of the correspondence run (Run/C03.v [op_child]) in its own terms *)
+Theorem C03_child_checker : forall T q (b dbg : bool), 1 <= T < 2 ^ 31 ->
+  let h := Z.to_nat (Height T) in
+  (length q < h)%nat ->
+  let f := if dbg then PathToIndexLoose_debug else PathToIndexLoose in
+  f T (enc h q) = Some (spec_rank T h q, Z.b2z (stored T q)) /\
+  f T (enc h (q ++ [b])) =
+    Some (spec_rank T h q + Z.b2z (stored T q) + (if b then T / 2 ^ (Z.of_nat (length q) + 1) else 0),
+          Z.b2z (Z.testbit T (Z.of_nat (length q) + 1))).
+Proof. exact child_checker. Qed.
+Print Assumptions C03_child_checker.
+
 (** * widening: the contracts of the debug build on RAW arguments (any int32 level mask, any uint64 word) *)
 
 (** the naive decoder of Spec/ContractSpec.v recognises exactly the path words *)
